@@ -5,6 +5,7 @@ package compose
 import (
 	"context"
 	"io"
+	"reflect"
 
 	"github.com/cloudwego/eino/schema"
 )
@@ -58,8 +59,8 @@ func VerifC12ConvertRestore(chunks []any, resumeStream bool) (stored any, restor
 	}
 }
 
-// VerifC12IsNilChunk: the value is the marker a checkpoint holds for a stream of one nil chunk.
+// VerifC12IsNilChunk: the value is the marker a checkpoint holds for a stream of one nil chunk
+// (told by the name of its type, so that this file does not depend on the marker's declaration).
 func VerifC12IsNilChunk(v any) bool {
-	_, ok := v.(nilChunk)
-	return ok
+	return v != nil && reflect.TypeOf(v).PkgPath() == reflect.TypeOf(checkpoint{}).PkgPath() && reflect.TypeOf(v).Name() == "nilChunk"
 }
